@@ -2,6 +2,7 @@
 CONSTANTS
   MaxLen = 1
   ApiFilter = {"localtxmonitor.HasTx", "blockfetch.GetBlockRange", "peersharing.GetPeers"}
+  TmoOnly = {}
   Design = "repaired"
   Emit = FALSE
 SPECIFICATION Spec
